@@ -21,6 +21,7 @@ import (
 	"github.com/idena-network/idena-go/core/upgrade"
 	"github.com/idena-network/idena-go/crypto"
 	"github.com/idena-network/idena-go/crypto/ecies"
+	"github.com/idena-network/idena-go/crypto/vrf/p256"
 	"github.com/idena-network/idena-go/pengings"
 	"github.com/idena-network/idena-go/secstore"
 	"github.com/idena-network/idena-go/stats/collector"
@@ -29,6 +30,7 @@ import (
 	"pgregory.net/rapid"
 
 	"verifharness/internal/evid"
+	"verifharness/internal/kf"
 	"verifharness/internal/sim"
 )
 
@@ -130,8 +132,16 @@ func (p *point) stateClass() string {
 	return "populated." + p.period
 }
 
-func (p *point) check(o outcome, entry string, input func() string) {
-	if verdict(p.t, o, entry, -1, input) {
+// run executes one entry point under the oracle (recover, allocation cap, watchdog).
+func (p *point) run(entry string, input func() string, f func()) {
+	if verdict(p.t, guard(entry, input, f), entry, -1, input) {
+		panic(abandon{})
+	}
+}
+
+// runFast is run without the allocation measurement.
+func (p *point) runFast(entry string, input func() string, f func()) {
+	if verdict(p.t, guardFast(entry, input, f), entry, -1, input) {
 		panic(abandon{})
 	}
 }
@@ -244,8 +254,7 @@ func (p *point) evalTx() {
 		st := v.ReadState()
 		minFee := fee.GetFeePerGasForNetwork(st.ValidatorsCache.NetworkSize())
 		var err error
-		o := guardFast(func() { err = validation.ValidateTx(st, c.tx, minFee, kind) })
-		p.check(o, "validation.ValidateTx("+kindNames[kind]+")", in)
+		p.runFast("validation.ValidateTx("+kindNames[kind]+")", in, func() { err = validation.ValidateTx(st, c.tx, minFee, kind) })
 		reached := reachedTypeValidator(st.State, c.tx, kind, v.Cfg.Consensus.EnableUpgrade11, err)
 		if reached {
 			evid.Count("tx.reached_validator." + tn)
@@ -262,12 +271,10 @@ func (p *point) evalTx() {
 	}
 	// the pool's own entries: Validate (the flip handler's route, no recover) and the gossip route
 	var perr error
-	o := guardFast(func() { perr = v.Pool.Validate(c.tx) })
-	p.check(o, "TxPool.Validate", in)
+	p.runFast("TxPool.Validate", in, func() { perr = v.Pool.Validate(c.tx) })
 	if pick(t, "offerToPool", 4) == 0 {
 		kind := rapid.SampledFrom([]validation.TxType{validation.InboundTx, validation.MempoolTx}).Draw(t, "poolKind")
-		o := guardFast(func() { perr = v.Pool.AddExternalTxs(kind, c.tx) })
-		p.check(o, "TxPool.AddExternalTxs", in)
+		p.runFast("TxPool.AddExternalTxs", in, func() { perr = v.Pool.AddExternalTxs(kind, c.tx) })
 		if perr == nil {
 			evid.Count("tx.pool_accepted." + tn)
 		}
@@ -296,8 +303,7 @@ func (p *point) evalTx() {
 	evid.Count("block.with_hostile_tx." + mode)
 	inB := func() string { return bc.String() + "\n  tx: " + c.String() + " state=" + p.stateClass() }
 	var err error
-	o = guard(func() { _, err = v.Chain.ValidateBlock(bc.block, nil, collector.NewStatsCollector()) })
-	p.check(o, "Blockchain.ValidateBlock", inB)
+	p.run("Blockchain.ValidateBlock", inB, func() { _, err = v.Chain.ValidateBlock(bc.block, nil, collector.NewStatsCollector()) })
 	if reachedInBlock {
 		evid.Count("block.tx_reached_validator." + tn)
 		evid.NonTrivial(fmt.Sprintf("blocktx|%s|%s|%v|%v|%s", tn, mode, c.labels, err == nil, p.stateClass()))
@@ -307,8 +313,7 @@ func (p *point) evalTx() {
 	}
 	if err == nil || pick(t, "addBlockAnyway", 12) == 0 {
 		cp := copyReplica(t, w, v)
-		o := guard(func() { err = cp.Chain.AddBlock(bc.block, nil, collector.NewStatsCollector()) })
-		p.check(o, "Blockchain.AddBlock", inB)
+		p.run("Blockchain.AddBlock", inB, func() { err = cp.Chain.AddBlock(bc.block, nil, collector.NewStatsCollector()) })
 		evid.Count("block.add_block_called")
 	}
 }
@@ -352,6 +357,40 @@ func (p *point) hostileProof(label string) ([]byte, string) {
 	return []byte{}, "proof=empty"
 }
 
+// keyHangRoot: Blockchain.ValidateProposerProof ignores the error of ProofToHash; for a proposer that is a pool
+// (modifier > 1) the all-zero hash of a failed verification sends common/math.Root into an iteration that never
+// meets its stopping rule.
+const keyHangRoot = "c12.hang.common.math.Root"
+
+// proposerProofWouldSpin predicts that shape (only used to exclude it once it is listed as a known finding).
+func (p *point) proposerProofWouldSpin(proof []byte, pubKey []byte) bool {
+	pk, err := crypto.UnmarshalPubkey(pubKey)
+	if err != nil {
+		return false
+	}
+	addr := crypto.PubkeyToAddress(*pk)
+	vc := p.v.r.AppState.ValidatorsCache
+	if !vc.IsPool(addr) || vc.PoolSize(addr) <= 1 {
+		return false
+	}
+	verifier, err := p256.NewVRFVerifier(pk)
+	if err != nil {
+		return false
+	}
+	head := p.v.r.Chain.Head
+	data := append(append(head.Seed().Bytes(), common.ToBytes(blockchain.ProposerRole)...), common.ToBytes(head.Height()+1)...)
+	_, err = verifier.ProofToHash(data, proof)
+	return err != nil
+}
+
+func (p *point) excludedKnownHang(proof []byte, pubKey []byte) bool {
+	if kf.Listed("C12", keyHangRoot) && p.proposerProofWouldSpin(proof, pubKey) {
+		evid.KnownHit("C12", keyHangRoot, "excluded by construction: proposer proof that fails verification, signed by a pool of size > 1")
+		return true
+	}
+	return false
+}
+
 func (p *point) evalHeader() {
 	t, w, v := p.t, p.w, p.v.r
 	if p.honest == nil {
@@ -368,8 +407,7 @@ func (p *point) evalHeader() {
 	// sync routes check Header.IsValid (blockRange.IsValid), then ValidateHeader
 	if b.Header.IsValid() {
 		var err error
-		o := guardFast(func() { err = v.Chain.ValidateHeader(b.Header, v.Head()) })
-		p.check(o, "Blockchain.ValidateHeader", in)
+		p.runFast("Blockchain.ValidateHeader", in, func() { err = v.Chain.ValidateHeader(b.Header, v.Head()) })
 		evid.Count("hdr.reached.ValidateHeader")
 		if err == nil {
 			evid.Count("hdr.ValidateHeader_accepted")
@@ -380,8 +418,7 @@ func (p *point) evalHeader() {
 	}
 	if b.IsValid() {
 		var err error
-		o := guard(func() { _, err = v.Chain.ValidateBlock(b, nil, collector.NewStatsCollector()) })
-		p.check(o, "Blockchain.ValidateBlock", in)
+		p.run("Blockchain.ValidateBlock", in, func() { _, err = v.Chain.ValidateBlock(b, nil, collector.NewStatsCollector()) })
 		evid.Count("hdr.reached.ValidateBlock")
 		if err == nil {
 			evid.Count("hdr.ValidateBlock_accepted")
@@ -389,8 +426,7 @@ func (p *point) evalHeader() {
 		evid.NonTrivial(desc + fmt.Sprintf("|ValidateBlock|%v", err == nil))
 		if err == nil || pick(t, "addBlockAnyway", 8) == 0 {
 			cp := copyReplica(t, w, v)
-			o := guard(func() { err = cp.Chain.AddBlock(b, nil, collector.NewStatsCollector()) })
-			p.check(o, "Blockchain.AddBlock", in)
+			p.run("Blockchain.AddBlock", in, func() { err = cp.Chain.AddBlock(b, nil, collector.NewStatsCollector()) })
 			evid.Count("hdr.reached.AddBlock")
 		}
 	} else {
@@ -419,29 +455,28 @@ func (p *point) evalHeader() {
 	}
 	inP := func() string { return fmt.Sprintf("proposal{%s %s} wire=%x state=%s", blockDesc(dec.Block), pl, clip(wire, 600), p.stateClass()) }
 	var valid bool
-	o := guardFast(func() { valid = dec.IsValid() })
-	p.check(o, "BlockProposal.IsValid", inP)
+	p.runFast("BlockProposal.IsValid", inP, func() { valid = dec.IsValid() })
 	if !valid {
 		evid.Count("proposal.gate_rejected")
+		return
+	}
+	if p.excludedKnownHang(dec.Proof, dec.Block.Header.ProposedHeader.ProposerPubKey) {
 		return
 	}
 	evid.Count("proposal.reached.AddProposedBlock")
 	var added, pending bool
 	props := p.v.proposals()
-	o = guard(func() { added, pending = props.AddProposedBlock(dec, peer.ID("hostile-peer"), w.Now()) })
-	p.check(o, "Proposals.AddProposedBlock", inP)
+	p.run("Proposals.AddProposedBlock", inP, func() { added, pending = props.AddProposedBlock(dec, peer.ID("hostile-peer"), w.Now()) })
 	if added {
 		evid.Count("proposal.added")
 		// the engine's next step on an added proposal
-		o = guard(func() {
+		p.run("Proposals.GetProposedBlock", inP, func() {
 			_, _ = props.GetProposedBlock(dec.Block.Height(), dec.Block.Header.ProposedHeader.ProposerPubKey, time.Millisecond)
 		})
-		p.check(o, "Proposals.GetProposedBlock", inP)
 	}
 	if pending {
 		evid.Count("proposal.pending")
-		o = guard(func() { props.ProcessPendingBlocks() })
-		p.check(o, "Proposals.ProcessPendingBlocks", inP)
+		p.run("Proposals.ProcessPendingBlocks", inP, func() { props.ProcessPendingBlocks() })
 	}
 	evid.NonTrivial(desc + fmt.Sprintf("|proposal|%s|%v|%v", pl, added, pending))
 }
@@ -469,29 +504,29 @@ func (p *point) evalProof() {
 	in := func() string {
 		return fmt.Sprintf("proofProposal{round=%d (current %d) %s %s signer=%s} wire=%x", dec.Round, round, pl, sl, a, wire)
 	}
+	if pub, err := types.ProofProposalPubKey(dec); err == nil && p.excludedKnownHang(dec.Proof, pub) {
+		return
+	}
 	props := p.v.proposals()
 	var added, pending bool
-	o := guard(func() { added, pending = props.AddProposeProof(dec) })
-	p.check(o, "Proposals.AddProposeProof", in)
+	p.run("Proposals.AddProposeProof", in, func() { added, pending = props.AddProposeProof(dec) })
 	evid.Count("proof.reached.AddProposeProof")
 	if added {
 		evid.Count("proof.added")
 	}
 	if pending {
-		o = guard(func() { props.ProcessPendingProofs() })
-		p.check(o, "Proposals.ProcessPendingProofs", in)
+		p.run("Proposals.ProcessPendingProofs", in, func() { props.ProcessPendingProofs() })
 	}
 	evid.NonTrivial(fmt.Sprintf("proof|%s|%s|%d|%v|%v", pl, sl, int64(dec.Round-round), added, pending))
 }
 
 func (p *point) drainVotes(in func() string) {
-	o := guardFast(func() {
+	p.runFast("OfflineDetector/Upgrader.processVote", in, func() {
 		for p.v.offline.VerifC12DrainVote() {
 		}
 		for p.v.upgrader.VerifC12DrainVote() {
 		}
 	})
-	p.check(o, "OfflineDetector/Upgrader.processVote", in)
 }
 
 func (p *point) evalVote() {
@@ -534,8 +569,7 @@ func (p *point) evalVote() {
 		return
 	}
 	var added bool
-	o := guardFast(func() { added = p.v.votes.AddVote(dec) })
-	p.check(o, "Votes.AddVote", in)
+	p.runFast("Votes.AddVote", in, func() { added = p.v.votes.AddVote(dec) })
 	evid.Count("vote.reached.AddVote")
 	if added {
 		evid.Count("vote.added")
@@ -613,8 +647,7 @@ func (p *point) evalCert() {
 	if rapid.Bool().Draw(t, "withAddrCache") {
 		cache = map[string]common.Address{}
 	}
-	o := guard(func() { err = v.Chain.ValidateBlockCert(v.Head(), blk.Header, dec, v.AppState.ValidatorsCache, cache) })
-	p.check(o, "Blockchain.ValidateBlockCert", in)
+	p.run("Blockchain.ValidateBlockCert", in, func() { err = v.Chain.ValidateBlockCert(v.Head(), blk.Header, dec, v.AppState.ValidatorsCache, cache) })
 	evid.Count("cert.reached.ValidateBlockCert")
 	if err == nil {
 		evid.Count("cert.accepted")
@@ -664,14 +697,12 @@ func (p *point) evalKeys() {
 		}
 		in := func() string { return fmt.Sprintf("publicFlipKey{key(%d)=%x epoch=%d (current %d) %s sender=%s} wire=%x", len(dec.Key), clip(dec.Key, 8), dec.Epoch, epoch, sl, a, wire) }
 		var err error
-		o := guardFast(func() { err = p.v.keys.AddPublicFlipKey(dec, false) })
-		p.check(o, "KeysPool.AddPublicFlipKey", in)
+		p.runFast("KeysPool.AddPublicFlipKey", in, func() { err = p.v.keys.AddPublicFlipKey(dec, false) })
 		evid.Count("keys.public.reached")
 		if err == nil {
 			evid.Count("keys.public.accepted")
 		}
-		o = guardFast(func() { p.v.keys.GetPublicFlipKey(a.Addr) })
-		p.check(o, "KeysPool.GetPublicFlipKey", in)
+		p.runFast("KeysPool.GetPublicFlipKey", in, func() { p.v.keys.GetPublicFlipKey(a.Addr) })
 		evid.NonTrivial(fmt.Sprintf("pubkey|%d|%d|%s|%v", len(dec.Key), int(dec.Epoch)-int(epoch), sl, err == nil))
 		return
 	}
@@ -709,16 +740,14 @@ func (p *point) evalKeys() {
 	}
 	in := func() string { return fmt.Sprintf("keysPackage{data(%d) class=%d epoch=%d (current %d) %s sender=%s} wire=%x", len(dec.Data), class, dec.Epoch, epoch, sl, a, clip(wire, 300)) }
 	var err error
-	o := guardFast(func() { err = p.v.keys.AddPrivateKeysPackage(dec, false) })
-	p.check(o, "KeysPool.AddPrivateKeysPackage", in)
+	p.runFast("KeysPool.AddPrivateKeysPackage", in, func() { err = p.v.keys.AddPrivateKeysPackage(dec, false) })
 	evid.Count("keys.package.reached")
 	if err == nil {
 		evid.Count("keys.package.accepted")
 	}
 	// what the ceremony does with a stored package once the author's public key is known
 	for idx := 0; idx < 3; idx++ {
-		o = guardFast(func() { p.v.keys.GetEncryptedPrivateFlipKey(idx, a.Addr) })
-		p.check(o, "KeysPool.GetEncryptedPrivateFlipKey", in)
+		p.runFast("KeysPool.GetEncryptedPrivateFlipKey", in, func() { p.v.keys.GetEncryptedPrivateFlipKey(idx, a.Addr) })
 	}
 	evid.NonTrivial(fmt.Sprintf("package|%d|%d|%s|%v", class, int(dec.Epoch)-int(epoch), sl, err == nil))
 }
@@ -782,8 +811,7 @@ func (p *point) evalFlip() {
 	in := func() string {
 		return fmt.Sprintf("flip{%s public=%d private=%d tx=%s} wire=%x", label, len(dec.PublicPart), len(dec.PrivatePart), (&txCase{tx: dec.Tx, sender: &sim.Actor{}}).String(), clip(wire, 300))
 	}
-	o := guard(func() { err = p.v.flipper.VerifC12AddNewFlip(dec) })
-	p.check(o, "Flipper.addNewFlip", in)
+	p.run("Flipper.addNewFlip", in, func() { err = p.v.flipper.VerifC12AddNewFlip(dec) })
 	evid.Count("flip.reached.addNewFlip")
 	if err == nil {
 		evid.Count("flip.accepted")
